@@ -69,13 +69,13 @@ Definition instr (code : list N) (ip : N) (m : mstate) : outcome * mstate :=
   else if op =? OpLocal then
     pop1 (fun name s =>
       match name_of o name with
-      | Ok n => continue (mkM s (env_declare (menv m) n VNull) (trace m) (polls m))
+      | Ok n => continue (mkM s (env_declare (menv m) (trim_dollar n) VNull) (trace m) (polls m))
       | Err e => fail m e
       end)
   else if op =? OpSet then
     pop2 (fun name v s =>
       match name_of o name with
-      | Ok n => continue (mkM s (env_set (menv m) n (match v with VIter x _ => x | _ => v end)) (trace m) (polls m))
+      | Ok n => continue (mkM s (env_set (menv m) (trim_dollar n) (match v with VIter x _ => x | _ => v end)) (trace m) (polls m))
       | Err e => fail m e
       end)
   else match binop_of_opcode op with
@@ -166,8 +166,8 @@ Definition instr (code : list N) (ip : N) (m : mstate) : outcome * mstate :=
         | VIter v off =>
             match name_of o vn, name_of o idn, iter_next o v off with
             | Ok var, Ok idx, Ok (Some (x, k)) =>
-                let e1 := env_declare (menv m) var x in
-                let e2 := match idx with [] => e1 | _ => env_declare e1 idx k end in
+                let e1 := env_declare (menv m) (trim_dollar var) x in
+                let e2 := match idx with [] => e1 | _ => env_declare e1 (trim_dollar idx) k end in
                 continue (mkM (VBool true :: VIter v (off + 1) :: s) e2 (trace m) (polls m))
             | Ok _, Ok _, Ok None =>
                 match env_pop (menv m) with
@@ -199,7 +199,7 @@ Definition instr (code : list N) (ip : N) (m : mstate) : outcome * mstate :=
                    end) with
             | None => fail m EScript
             | Some v' =>
-                let e1 := env_set (menv m) name v' in
+                let e1 := env_set (menv m) (trim_dollar name) v' in
                 match stk m with
                 | _ :: s => continue (mkM s e1 (trace m) (polls m))
                 | [] => fail (set_env m e1) EInternal
